@@ -771,4 +771,38 @@ theorem phase_stall_witness (n : ℕ) :
   · rw [if_neg hpar]; norm_num
 
 
+
+/-! ## rules with a statistic of their own (`StatIntervalInMs` not reusable): what the theorems above cover -/
+
+/-- the driver's `reqG` is `req` whenever the rule reads the resource's statistic — the case all history-level theorems are about -/
+theorem reqG_eq_req (s : Sys ℚ) (h : s.own = none) (t b : ℕ) : reqG s t b = req s t b := by
+  unfold reqG; rw [h]
+
+/-- … and `req` never creates an own statistic -/
+theorem req_own (s : Sys ℚ) (t b : ℕ) : (req s t b).1.own = s.own := by
+  obtain ⟨a, ha, _, _, _⟩ := touch_arr s t
+  have hb : (s.touch t).own = s.own := by unfold Sys.touch; cases s.arr <;> rfl
+  unfold req
+  simp only [ha]
+  rcases h : threshold (s.touch t) a t with ⟨tk, thr⟩
+  exact hb
+
+/-- per decision, on the rule's own statistic `o`: a request admitted under a non-degenerate warm-up rule leaves the rule's window
+    (as read from `o`) within the configured threshold -/
+theorem reqOwn_admits_under_threshold (T : ℚ) (p cf0 sc Iv : ℕ) (hnd : Known.degenerateNaN (mkCfg T p cf0) = false)
+    (s : Sys ℚ) (hr : s.rule = some (.warmup (mkCfg T p cf0), sc, Iv)) (o : Arr Bucket) (t b : ℕ)
+    (hadm : (reqOwn s o t b).2 = true) : ((vSum o Iv t .pass + b : ℕ) : ℚ) ≤ T := by
+  have hwf := mkCfg_wf T p cf0 hnd
+  obtain ⟨a, ha, hr', htk, _⟩ := touch_arr s t
+  unfold reqOwn at hadm
+  simp only [ha] at hadm
+  unfold threshold at hadm
+  rw [hr', hr] at hadm
+  dsimp only at hadm
+  rw [allowed_closed_form hwf] at hadm
+  unfold rejects at hadm
+  simp only [c_ofNat, c_ltb, Bool.not_eq_true', decide_eq_false_iff_not, not_lt] at hadm
+  exact le_trans hadm (val_le_T hwf _)
+
+
 end Sentinel.C11
